@@ -98,6 +98,17 @@ func buildRouterFull(defs []refmodel.RouteDef, via []string, routeMW bool, rec *
 		} else {
 			r = rux.New(opts...)
 		}
+	})
+	if pv != nil {
+		return
+	}
+	return registerInto(r, defs, via, routeMW, rec)
+}
+
+// registerInto registers defs on an existing router
+func registerInto(r0 *rux.Router, defs []refmodel.RouteDef, via []string, routeMW bool, rec *hitRec) (r *rux.Router, pv any) {
+	r = r0
+	pv = try(func() {
 		for i, d := range defs {
 			i := i
 			h := func(c *rux.Context) {
